@@ -61,20 +61,18 @@ def handle : Handler
       match getMembership l k with
       | .error e => some (showErr e)
       | .ok m => some s!"ok {m.nCol} {showListList m.rows}") "bad-args"
-  | "c05.louvain", [n, nAgg, raws, flags, index, so, sh, bip, nRow] => some <| Option.getD (do
-      let n ← n.toNat?
+  | "c05.louvain", [nRow, nCol, nnz, fb, mk, nAgg, raws, flags, index, so, sh] => some <| Option.getD (do
       let nAgg ← nAgg.toInt?
       let raws ← intListList? raws
       let flags ← natList? flags
       let index ← natList? index
       let kernel := fun (count _n : Nat) => (raws.getD (count - 1) [], flags.getD (count - 1) 1 != 0)
-      match louvainFit argsortStable kernel nAgg raws.length n index (← bool? so) (← bool? sh) (← bool? bip)
-              (← nRow.toNat?) with
+      match louvainEstimator argsortStable kernel nAgg raws.length (← nRow.toNat?) (← nCol.toNat?) (← nnz.toNat?)
+              (← bool? fb) (← bool? mk) index (← bool? so) (← bool? sh) with
       | .error e => some (showErr e)
       | .ok none => some "fuel"
       | .ok (some (f, count)) => some s!"ok {count} {showFitted f}") "bad-args"
-  | "c05.leiden", [n, nAgg, raws, refs, flags, index, so, sh, bip, nRow] => some <| Option.getD (do
-      let n ← n.toNat?
+  | "c05.leiden", [nRow, nCol, nnz, fb, mk, nAgg, raws, refs, flags, index, so, sh] => some <| Option.getD (do
       let nAgg ← nAgg.toInt?
       let raws ← intListList? raws
       let refs ← intListList? refs
@@ -82,8 +80,8 @@ def handle : Handler
       let index ← natList? index
       let kernel := fun (count : Nat) (_ : List Nat) => (raws.getD (count - 1) [], flags.getD (count - 1) 1 != 0)
       let refine := fun (count : Nat) (_ : List Nat) => refs.getD (count - 1) []
-      match leidenFit argsortStable kernel refine nAgg raws.length n index (← bool? so) (← bool? sh) (← bool? bip)
-              (← nRow.toNat?) with
+      match leidenEstimator argsortStable kernel refine nAgg raws.length (← nRow.toNat?) (← nCol.toNat?)
+              (← nnz.toNat?) (← bool? fb) (← bool? mk) index (← bool? so) (← bool? sh) with
       | .error e => some (showErr e)
       | .ok none => some "fuel"
       | .ok (some (f, count)) => some s!"ok {count} {showFitted f}") "bad-args"
@@ -92,10 +90,12 @@ def handle : Handler
       let labels ← natList? labels
       let refined ← natList? refined
       some ("ok " ++ showList (refinedToCoarse labels refined (nLabels refined)))) "bad-args"
-  | "c05.prop", [raw, so, bip, nRow] => some <| Option.getD (do
+  | "c05.prop", [nRow, nCol, nnz, raw, so] => some <| Option.getD (do
       let raw ← intList? raw
-      some ("ok " ++ showFitted (propagationPost argsortStable raw (← bool? so) (← bool? bip) (← nRow.toNat?))))
-        "bad-args"
+      match propagationEstimator argsortStable (fun _ => raw) (← nRow.toNat?) (← nCol.toNat?) (← nnz.toNat?)
+              (← bool? so) with
+      | .error e => some (showErr e)
+      | .ok f => some ("ok " ++ showFitted f)) "bad-args"
   | "c05.unshuffle", [labels, index] => some <| Option.getD (do
       match unshuffle (← natList? labels) (← natList? index) with
       | .error e => some (showErr e)
